@@ -144,7 +144,9 @@ def deprecatedToUsefulText(ctx:model.Documentable, name:str, deprecated:ast.Call
     if replacement is not None and not validate_identifier(replacement):
         # The replacement is not an identifier, so don't even try to resolve it.
         # By adding extras backtics, we make the replacement a literal text.
-        replacement = replacement.replace('\n', ' ')
+        # All kinds of line boundaries, not only '\\n', would start a new reStructuredText block,
+        # and a backquote would end the literal text.
+        replacement = ' '.join(replacement.splitlines()).replace('`', "'")
         replacement = f"`{replacement}`"
     
     if replacement is not None:
